@@ -320,7 +320,7 @@ def generate():
     # function bodies translated statement by statement (tools/rs2lean.py, configuration in tools/fn_table.py)
     try:
         files.update(fn_table.generate_fn_files(read, {
-            "bits.rs": c, "raw_vector.rs": c, "int_vector.rs": c, "wavelet_matrix/wm_core.rs": c,
+            "bits.rs": c, "serialize.rs": {**c, "bits::WORD_BYTES": c["WORD_BYTES"]}, "raw_vector.rs": c, "int_vector.rs": c, "wavelet_matrix/wm_core.rs": c,
             "bit_vector/rank_support.rs": {**c, **r}, "sparse_vector.rs": {**c, **p}, "rl_vector/index.rs": {**c, **i},
             "rl_vector.rs": {**c, **l}, "bit_vector/select_support.rs": {**c, **s},
             "bit_vector.rs": {**c, "RankSupport::BLOCK_SIZE": r["BLOCK_SIZE"], "SelectSupport::SUPERBLOCK_SIZE": s["SUPERBLOCK_SIZE"]}}))
